@@ -580,6 +580,10 @@ func (g *gen) account(w *CaseWriter, id int64, term string, hc *hcase) {
 	if len(hc.Outside) > 0 {
 		w.Count("outside_effects", "yes")
 	}
+	if len(hc.Panics) > 0 {
+		w.Count("panic", "yes")
+		w.ImplViolation(id, "FileCache panicked: "+hc.Panics[0], hc, "")
+	}
 	if len(hc.Frame) > 0 {
 		w.Count("frame", "library mutated a caller-owned object")
 		w.ImplViolation(id, "library mutated caller-owned Bundle / RevocationList passed to FileCache.Set: "+hc.Frame[0], hc, "")
